@@ -21,7 +21,7 @@ A10 = ("A10 assumed contracts inside the engine-V proof of the constructor: tupl
        "in-place operators `+= -= |= &=` as used by the non-in-place ones are discharged against the callee's contract (contracts/callsites.py + pyvc/conform.py, run in every check "
        "that uses them, together with the callee's own proof; an arbitrary ImmutableKnotVector value is taken under its class invariant WF, which the constructor contract proves); still ASSUMED "
        "(callee contract proved, correspondence with the handler by review only): `mult` as a contiguous block, `internal | other` / `& other` as seen by the KnotVector facade, "
-       "`internal = sequence`, `*=`, `/=` (conformance not decided within budget), `difference_vector` as seen by `difference_matrix` (the handler assumes degree >= 1)")
+       "`internal = sequence`, `*=`, `/=` (conformance not decided within budget)")
 A11 = ("A11 shape-level contracts of curves.py (engine V, C15): a knot vector is seen through (npts, degree, number of distinct knots) only; assumed callee "
        "contracts: heavy.Operations.knot_insert / degree_increase return matrices of the stated shape for a legal request (engine S checks the shapes per shape "
        "in C04 / C06), KnotVector + / - nodes returns a new vector of the stated length with an inferred degree, fit_curve fills a FRESH curve with npts points and, for a weighted "
